@@ -107,6 +107,16 @@ CHECKS = {
         text="247 bindings covering 269 cwrapper.h functions: every step must either return SYMENGINE_NO_EXCEPTION with a result whose dump equals the C++ API result, or a non-zero code with all output handles still valid; an exception escaping an extern C function is caught by the binding and reported; vec/set/map containers are model-checked after every mutation; 11 Expression operator bindings agree with the core. Exploration.",
         note="Preconditions guarded only by SYMENGINE_ASSERT (index ranges, handle sorts) are respected by construction. Known findings KF-C42-04 (lambda visitor init has no error channel) and KF-C42-07 (parser boolean downcast) are excluded while listed.",
         variants=["main"]),
+    "C27": dict(
+        engine="hy", technique="property-based testing: exhaustive ordered pairs of 43 structured set leaves x 6 operations plus generated set expressions of depth <= 4; exact three-valued membership model (Fractions) probed at 30-48 critical points per node; sup/inf/boundary/interior/closure against the model",
+        text="For every node of every generated or enumerated set expression (intervals of all open/closed shapes, finite sets, the number sets, empty/universal, ConditionSet/ImageSet leaves) the membership of each probe point read from the returned object, and every definite contains() answer, must equal the boolean combination of the operands' exact memberships; topological functions are compared with the exact model. Exhaustive on the pair table, exploration beyond.",
+        note="Membership of +-oo and of doubles in Rationals/Integers is not judged. KF-C27-12 (ImageSet::set_complement swapped, pinned by test_sets) is a listed known finding.",
+        variants=["main"]),
+    "C28": dict(
+        engine="hy", technique="property-based testing: generated boolean formulas of depth <= 5 over relational and membership atoms plus an exhaustive literal table; exact truth-table oracle over assignments at the atoms' critical points; piecewise branch selection",
+        text="The truth value of the recipe (computed in Python with exact rationals) must equal the truth value of the returned formula's dump and of every definite result.subs(assignment) on up to 64 assignments that realise every sign pattern of the atoms; Piecewise must select the branch of the first true condition. Exploration.",
+        note="Assignments are real rationals; assignments where no Piecewise branch matches are skipped.",
+        variants=["main"]),
 }
 
 NOT_APPLICABLE = {}
